@@ -454,3 +454,182 @@ inline void mf_guides(Rng& rng, int n)
         mf_guide_one(rnd_f<long double>(rng, -60, 126));
     }
 }
+
+////////////////////////////////////////////////////////////////////////////////
+// make_fraction with component types that are CNL numbers (table `C17 mfw`):
+// wide_integer (single- and multi-word), overflow_integer (saturated / trapping / throwing, over built-in
+// and wide representations), elastic_integer, rounding_integer.
+
+// a component as an exact integer in decimal: the innermost representation is unwrapped without going through any
+// arithmetic of the library; a multi-word value is read limb by limb (two's complement) and converted here
+template<class Z>
+void pr_comp(Z const& z)
+{
+    if constexpr (cnl::_impl::is_wrapper<Z>)
+        pr_comp(cnl::_impl::to_rep(z));
+    else if constexpr (std::is_integral_v<Z> || std::is_same_v<Z, I> || std::is_same_v<Z, U>)
+        prv(z);
+    else {
+        constexpr int n = int(Z::number_of_limbs);
+        using limb = typename Z::limb_type;
+        constexpr int w = std::numeric_limits<limb>::digits;
+        static_assert(w == 32 || w == 64 || w == 16 || w == 8);
+        // to 32-bit little-endian words
+        std::vector<std::uint32_t> ws;
+        for (int i = 0; i < n; ++i) {
+            std::uint64_t l = std::uint64_t(z.crepresentation()[std::size_t(i)]);
+            if constexpr (w == 64) {
+                ws.push_back(std::uint32_t(l));
+                ws.push_back(std::uint32_t(l >> 32));
+            } else if constexpr (w == 32)
+                ws.push_back(std::uint32_t(l));
+            else {
+                // narrow limbs: pack
+                int bit = i * w;
+                if (bit % 32 == 0) ws.push_back(0);
+                ws.back() |= std::uint32_t(l) << (bit % 32);
+            }
+        }
+        bool neg = cnl::numbers::signedness_v<Z> && (ws.back() >> 31);
+        if (neg) {  // two's complement negate
+            std::uint64_t c = 1;
+            for (auto& x : ws) {
+                c += std::uint32_t(~x);
+                x = std::uint32_t(c);
+                c >>= 32;
+            }
+        }
+        std::vector<std::uint32_t> chunks;  // base 10^9, little endian
+        for (;;) {
+            std::uint64_t rem = 0;
+            bool nz = false;
+            for (int i = int(ws.size()) - 1; i >= 0; --i) {
+                std::uint64_t cur = (rem << 32) | ws[std::size_t(i)];
+                ws[std::size_t(i)] = std::uint32_t(cur / 1000000000u);
+                rem = cur % 1000000000u;
+                nz = nz || ws[std::size_t(i)];
+            }
+            chunks.push_back(std::uint32_t(rem));
+            if (!nz) break;
+        }
+        if (neg) putchar('-');
+        printf("%u", chunks.back());
+        for (int i = int(chunks.size()) - 2; i >= 0; --i) printf("%09u", chunks[std::size_t(i)]);
+    }
+}
+
+template<class T, class F>
+void mfw_one(F xv)
+{
+    static std::string head = "C17 mfw " + tn<F>() + " " + tn<T>() + " ";
+    fputs(head.c_str(), stdout);
+    prf(xv);
+    fputs(" => ", stdout);
+    volatile F x = xv;
+    long const us = timeout_usec() * 4;  // multi-word arithmetic is slower per iteration
+    int rc = sigsetjmp(vh::jb, 1);
+    if (rc == 0) {
+        vh::armed = 1;
+        arm(us);
+        try {
+            F const xin = x;
+            fraction<T> fr(xin);
+            arm(0);
+            vh::armed = 0;
+            pr_comp(fr.numerator);
+            putchar('/');
+            pr_comp(fr.denominator);
+        } catch (std::overflow_error const& e) {
+            arm(0);
+            vh::armed = 0;
+            print_throw(e);
+        }
+    } else {
+        arm(0);
+        vh::armed = 0;
+        if (rc == SIGALRM) ++g_hangs;
+        print_fail(rc);
+    }
+    putchar('\n');
+}
+
+// Input lattice for a component type of D digits (D may exceed every built-in type, so the limits are built from
+// powers of two, not from numeric_limits of a built-in).  `floor_only`: keep the inputs whose fractional part is below
+// one half (see C17.py: rounding_integer components)
+template<class T, class F>
+void mfw_sweep(Rng& rng, int mant_steps, int nrand, bool floor_only = false)
+{
+    using L = std::numeric_limits<T>;
+    constexpr int P = FI<F>::prec;
+    constexpr int D = L::digits;
+    static_assert(L::is_signed);
+    std::vector<F> xs;
+    auto add = [&](F x) {
+        if (!std::isfinite(x)) return;
+        if (D < FI<F>::emax && std::fabs(x) > mk<F>(1, D + 1)) return;
+        if (floor_only) {
+            F a = std::fabs(x);
+            if (a - std::floor(a) >= F(0.5)) return;
+        }
+        xs.push_back(x);
+    };
+    auto pm = [&](F x) { add(x), add(F(-x)); };
+    auto nb = [&](F x) {
+        pm(x);
+        pm(std::nextafter(x, std::numeric_limits<F>::infinity()));
+        pm(std::nextafter(x, F(0)));
+    };
+    // everyday values
+    for (F x : {F(0), F(1), F(0.5), F(0.75), F(0.375), F(0.1L), F(1) / F(3), F(2) / F(7), F(7) / F(3), F(2.5), F(10.25), F(237), F(1234.5625L),
+                F(3.14159265358979323846L), F(123456.789L), F(1) / F(1024), F(1e-9L), F(1e15L), F(16777216), F(4294967296.0L), F(1048576.25L)})
+        pm(x);
+    add(F(-0.0));
+    // integers at and next to the component limits: max, max-1, max-2, max-3, max+1, halves, with float neighbours
+    if (D <= FI<F>::emax) {
+        F const top = mk<F>(1, D);  // max + 1
+        for (int o = 0; o <= 4; ++o) nb(F(top - F(o)));
+        for (F o : {F(0.5), F(1.5), F(2.5), F(0.25), F(1.25)}) pm(F(top - o));
+        nb(mk<F>(1, D - 1));
+        pm(F(mk<F>(1, D - 1) + F(0.5)));
+        pm(F(mk<F>(1, D - 1) - F(0.5)));
+        pm(F(top / 2 - F(0.5)));  // max/2
+        pm(F(top - mk<F>(1, D - P > 0 ? D - P : 0)));  // the float just below 2^D
+        for (int i = 0; i < 6; ++i) pm(F(top - F(1 + rng.below(1000))));
+    }
+    // powers of two down to 2^-(D+2) with neighbours, 3*2^-k, and the whole exponent lattice
+    int const elo = (-(D + 2) < FI<F>::emin - P + 1) ? FI<F>::emin - P + 1 : -(D + 2);
+    for (int k : {D + 2, D + 1, D, D - 1, D - 2, D / 2, P, P + 1, 31, 32, 63, 64}) {
+        if (-k < elo) continue;
+        nb(mk<F>(1, -k));
+        pm(mk<F>(3, -k));
+        pm(mk<F>(5, -k - 1));
+    }
+    int const span = D + 2 - elo;
+    int const estep = span <= 80 ? 1 : span / 60;
+    for (int e = elo; e <= D && e <= FI<F>::emax; e += (estep > 1 ? 1 + rng.below(2 * estep - 1) : 1))
+        for (int k = 0; k < mant_steps; ++k) {
+            std::uint64_t frac = mant_steps <= 1 ? 0 : (std::uint64_t(k) * ((std::uint64_t(1) << (P - 1)) - 1)) / std::uint64_t(mant_steps - 1);
+            if (k && rng.below(3) == 0) frac ^= rng.next() & 0xff;
+            frac &= (std::uint64_t(1) << (P - 1)) - 1;
+            pm(mk<F>((std::uint64_t(1) << (P - 1)) | frac, e - (P - 1)));
+        }
+    for (int i = 0; i < nrand; ++i) {
+        add(rnd_f<F>(rng, elo, D < FI<F>::emax ? D : FI<F>::emax));
+        add(rnd_f<F>(rng, -4, 4));
+        add(rnd_f<F>(rng, -P, P));
+        int q = 1 + rng.below(rng.below(2) ? 12 : 1000);
+        int p = rng.below(q * 4 + 1);
+        pm(F(p) / F(q));
+        add(F(rng.below(100000)) / F(rng.below(2) ? 100 : 1000));
+        add(mk<F>(rng.next() & 0xffff, -(1 + rng.below(20))));
+        // integers and integers + dyadic fractions of random bit length
+        int len = 1 + rng.below(D < FI<F>::emax ? D : FI<F>::emax);
+        F t = std::floor(mk<F>(rng.next() >> 1 | (std::uint64_t(1) << 63), len - 64));
+        pm(t);
+        add(t + mk<F>(1 + 2 * rng.below(8), -4));
+    }
+    for (F x : xs) {
+        if (g_hangs >= g_hang_budget) break;
+        mfw_one<T, F>(x);
+    }
+}
